@@ -36,7 +36,8 @@ ASSUMED.update({
     "operator module": "operator.add/sub/mul/truediv/mod/pow/eq/le/ge/lt/gt/or_/xor/and_ are the Python operators",
     "int bitwise": "| ^ & on ints are uninterpreted total functions bitor/bitxor/bitand on mathematical integers",
     "unicodedata.normalize": "unicodedata.normalize('NFC', s) is a total uninterpreted function nfc(s) of the string",
-    "chr": "chr(i) raises ValueError unless 0 <= i < 0x110000 (else the one-character string with that code point)",
+    "chr": "chr(i) raises OverflowError unless -2**31 <= i < 2**31, else ValueError unless 0 <= i < 0x110000 (else the "
+           "one-character string with that code point)",
     "int(str, base)": "int(s, 16) of a non-empty string of hexadecimal digits is its base-16 value (uninterpreted "
                       "function hexval with 0 <= hexval(s) < 16**len(s)); never raises on such a string",
     "str % args": "%-formatting of concrete strings is evaluated; of symbolic arguments it is an opaque string",
@@ -334,6 +335,8 @@ _orig_chr = Lib.bi_chr
 
 def bi_chr(self, ctx, i):
     if isinstance(i, z3.ExprRef) and z3.is_int(i):
+        if ctx.decide(z3.Or(i < -2 ** 31, i >= 2 ** 31)):
+            raise self.raise_ext("OverflowError", "chr() arg does not fit a C int")
         if ctx.decide(z3.Or(i < 0, i >= 0x110000)):
             raise self.raise_ext("ValueError", "chr() arg not in range(0x110000)")
         return z3.StrFromCode(i)
@@ -738,3 +741,288 @@ def apply_contract(self, ctx, finfo, contract, args, kwargs):
 
 
 Engine.apply_contract = apply_contract
+
+
+# ---------------------------------------------------------------------------------------------------- strings / iterators
+ASSUMED.update({
+    "iter(str)/next": "iter(s) of a string yields its characters in order; next() raises StopIteration at the end",
+    "itertools.count": "itertools.count() yields 0, 1, 2, ... forever (loops over it need an invariant; they end by "
+                       "break / return / raise only)",
+    "str.islower": "str.islower of a one-character ASCII string is evaluated on the running CPython; uninterpreted otherwise",
+    "str.lower (hex digits)": "if c is one character and c.lower() occurs in '0123456789abcdef' then c.lower() is one "
+                              "character (checked over all 0x110000 code points of the running CPython at import)",
+    "str.replace": "s.replace(a, b) of a symbolic string is an uninterpreted function strrepl(s, a, b)",
+})
+
+
+def _check_lower_fact():
+    hexd = "0123456789abcdef"
+    for c in range(0x110000):
+        lo = chr(c).lower()
+        if len(lo) != 1 and lo in hexd:
+            return False
+    return True
+
+
+LOWER_FACT_HOLDS = _check_lower_fact()
+
+
+class SymStrIter:
+    """iter(s) of a symbolic string: the string and the current position (mutable)."""
+
+    def __init__(self, s, pos):
+        self.s, self.pos = s, pos
+
+
+class CountV:
+    """itertools.count()"""
+
+
+def bi_itertools_count(self, ctx, start=0, step=1):
+    if start != 0 or step != 1:
+        raise EngineLimit("itertools.count with arguments")
+    return CountV()
+
+
+Lib.bi_itertools_count = bi_itertools_count
+
+_orig_bi_iter2 = Lib.bi_iter
+
+
+def bi_iter2(self, ctx, it):
+    if isinstance(it, z3.ExprRef) and z3.is_string(it):
+        return SymStrIter(it, z3.IntVal(0))
+    return _orig_bi_iter2(self, ctx, it)
+
+
+Lib.bi_iter = bi_iter2
+
+_orig_bi_next = Lib.bi_next
+
+
+def bi_next(self, ctx, it, *default):
+    if isinstance(it, SymStrIter):
+        if ctx.decide(it.pos >= z3.Length(it.s)):
+            if default:
+                return default[0]
+            raise self.raise_ext("StopIteration")
+        ch = z3.SubString(it.s, it.pos, 1)
+        it.pos = it.pos + 1
+        return ch
+    return _orig_bi_next(self, ctx, it, *default)
+
+
+Lib.bi_next = bi_next
+
+_orig_getslice = Lib.getslice
+
+
+def getslice(self, ctx, o, lo, hi):
+    if isinstance(o, z3.ExprRef) and z3.is_string(o) and (lo is None or isinstance(lo, int)) and (
+            hi is None or isinstance(hi, int)):
+        n = z3.Length(o)
+
+        def norm(v, dflt):
+            if v is None:
+                return dflt
+            t = z3.IntVal(v) if v >= 0 else n + v
+            return z3.If(t < 0, 0, z3.If(t > n, n, t))
+
+        a, b = norm(lo, z3.IntVal(0)), norm(hi, n)
+        return z3.SubString(o, a, z3.If(b > a, b - a, 0))
+    return _orig_getslice(self, ctx, o, lo, hi)
+
+
+Lib.getslice = getslice
+
+ISLOWER = _uf("str.islower", z3.StringSort(), z3.BoolSort())
+STRREPL = _uf("strrepl", z3.StringSort(), z3.StringSort(), z3.StringSort(), z3.StringSort())
+
+
+def m_str_islower(self, ctx, o):
+    if isinstance(o, str):
+        return o.islower()
+    r = ISLOWER(o)
+    for c in "uU":  # the only strings the functions under contract ask about
+        ctx.assume(z3.Implies(o == z3.StringVal(c), r == z3.BoolVal(c.islower())))
+    return r
+
+
+Lib.m_str_islower = m_str_islower
+
+_orig_m_str_lower = Lib.m_str_lower
+
+
+def m_str_lower(self, ctx, o):
+    r = _orig_m_str_lower(self, ctx, o)
+    if isinstance(r, z3.ExprRef) and LOWER_FACT_HOLDS:
+        ctx.assume(z3.Implies(z3.And(z3.Length(o) == 1, z3.Contains(z3.StringVal("0123456789abcdef"), r)),
+                              z3.Length(r) == 1))
+    return r
+
+
+Lib.m_str_lower = m_str_lower
+
+
+def m_str_replace(self, ctx, o, a, b):
+    if isinstance(o, str) and isinstance(a, str) and isinstance(b, str):
+        return o.replace(a, b)
+    return STRREPL(V.Str.unwrap(o), V.Str.unwrap(a), V.Str.unwrap(b))
+
+
+Lib.m_str_replace = m_str_replace
+
+_orig_bi_range = Lib.bi_range
+
+
+def bi_range(self, ctx, a, b=None, step=1):
+    if b is None and isinstance(a, z3.ExprRef):
+        a = self.concretize(ctx, a, limit=16)
+    return _orig_bi_range(self, ctx, a, b, step)
+
+
+Lib.bi_range = bi_range
+
+_HEXRE = None
+
+
+def _hexre():
+    global _HEXRE
+    if _HEXRE is None:
+        _HEXRE = z3.Plus(z3.Union(z3.Range("0", "9"), z3.Range("a", "f"), z3.Range("A", "F")))
+    return _HEXRE
+
+
+def _all_hex_digits(ctx, x) -> bool:
+    """The string term is a concatenation of pieces each of which is provably one hexadecimal digit."""
+    pieces = []
+
+    def flat(t):
+        if z3.is_app(t) and t.decl().kind() == z3.Z3_OP_SEQ_CONCAT:
+            for c in t.children():
+                flat(c)
+        elif z3.is_string_value(t):
+            if t.as_string() != "":
+                pieces.append(t)
+        else:
+            pieces.append(t)
+
+    flat(x)
+    if not pieces:
+        return False
+    hexd = z3.StringVal("0123456789abcdef")
+    qf = [p for p in ctx.pc if not symexec.has_quantifier(p)]
+    for p in pieces:
+        s = z3.Solver()
+        s.set("timeout", 3000)
+        for f in qf:
+            s.add(f)
+        s.add(z3.Not(z3.And(z3.Length(p) == 1, z3.Contains(hexd, p))))
+        if s.check() != z3.unsat:
+            return False
+    return True
+
+
+_orig_bi_int = Lib.bi_int
+
+
+def bi_int(self, ctx, x=0, base=None):
+    if isinstance(x, z3.ExprRef) and z3.is_string(x) and base == 16:
+        if not _all_hex_digits(ctx, x):
+            raise EngineLimit("int(s, 16) of a string that is not known to consist of hexadecimal digits")
+        v = HEXVAL(x)
+        ctx.assume(v >= 0)
+        for k in range(1, 17):
+            ctx.assume(z3.Implies(z3.Length(x) == k, v < 16 ** k))
+        return v
+    return _orig_bi_int(self, ctx, x, base)
+
+
+Lib.bi_int = bi_int
+
+
+def _find_iters(env):
+    out = []
+    e = env
+    while e is not None:
+        for v in e.vars.values():
+            if isinstance(v, SymStrIter) and v not in out:
+                out.append(v)
+        e = e.parent
+    return out
+
+
+def exec_count_loop(engine, ctx, st, env):
+    """`for i in itertools.count(): body` with a sidecar invariant.  The loop is left by break / return / raise only.
+       Loop-carried state: the local names assigned in the body and the position of every string iterator in scope."""
+    from . import loops
+    from .spec import NS
+    from .symexec import lift_bool, short, BreakSig, ContinueSig
+
+    qual = env.finfo.qualname if env.finfo is not None else ""
+    k = loops.loop_ordinal(env, st)
+    inv = engine.reg.loops.get((qual, k))
+    if inv is None:
+        raise EngineLimit("loop over itertools.count() without an invariant")
+    label = "%s/loop%d" % (short(ctx.func), k)
+    modified = [n for n in loops.assigned_names(st.body) if n in env.vars]
+    iters = _find_iters(env)
+
+    def inv_clauses(i):
+        ns = NS(i=i, ctx=ctx, **{k_: v for k_, v in env.vars.items()})
+        return engine.run_spec(ctx, lambda: loops._as_items(inv(ns)))
+
+    for lab, c in inv_clauses(z3.IntVal(0)):
+        ctx.oblige("%s/inv-init#%s" % (label, lab), lift_bool(c), kind="inv-init")
+    for n in modified:
+        env.vars[n] = loops.fresh_like(engine, ctx, n, env.vars[n])
+    for it in iters:
+        it.pos = ctx.fresh("iterpos", z3.IntSort())
+    i = ctx.fresh("iter", z3.IntSort())
+    ctx.assume(i >= 0)
+    for lab, c in inv_clauses(i):
+        ctx.assume(lift_bool(c))
+    engine.assign(ctx, st.target, i, env)
+    try:
+        engine.exec_block(ctx, st.body, env)
+    except ContinueSig:
+        pass
+    except BreakSig:
+        return  # the state after the loop: an arbitrary iteration that satisfied the invariant, up to the break
+    for lab, c in inv_clauses(i + 1):
+        ctx.oblige("%s/inv-step#%s" % (label, lab), lift_bool(c), kind="inv-step")
+    raise PathEnd()
+
+
+def _install_count_loop():
+    from . import loops
+
+    orig = loops.exec_for
+
+    def exec_for(engine, ctx, st, env):
+        it = st.iter
+        if isinstance(it, ast.Call) and isinstance(it.func, ast.Attribute) and it.func.attr == "count" and \
+                isinstance(it.func.value, ast.Name) and it.func.value.id == "itertools":
+            return exec_count_loop(engine, ctx, st, env)
+        return orig(engine, ctx, st, env)
+
+    loops.exec_for = exec_for
+
+
+_install_count_loop()
+
+
+def _install_fresh_like():
+    from . import loops
+
+    orig = loops.fresh_like
+
+    def fresh_like(engine, ctx, name, v):
+        if isinstance(v, str):
+            return ctx.fresh(name, z3.StringSort())
+        return orig(engine, ctx, name, v)
+
+    loops.fresh_like = fresh_like
+
+
+_install_fresh_like()
